@@ -343,6 +343,22 @@ class BodyInfo:
                             edges.append(ed)
         return edges
 
+    def phi_tests_fed_by_not(self, site):
+        """like phi_tests_fed_by, for locals one of whose definitions is `!<result of site>`"""
+        out = []
+        body = self.body
+        for e in self.switches:
+            s = e["subject"]
+            if e["kind"] == "bool" and s[0] == "phi":
+                for d in body.defs.get(s[1], []):
+                    if d[0] not in body.reachable or body.is_cleanup(d[0]):
+                        continue
+                    t = self.T._of_def(s[1], d, 1)
+                    if t[0] == "unop" and t[1] == "Not" and t[2][0] == "call" and t[2][3] == site.block:
+                        out.append(e)
+                        break
+        return out
+
     def phi_tests_fed_by(self, site):
         """bool switches on a multi-definition local one of whose definitions is the result of
         `site` (e.g. `let all_ready = match i { K => { ...all(..) }, .. }; if all_ready {`)."""
